@@ -473,6 +473,11 @@ def main():
     rep.coverage["dependents_of_cycles"] = tally_dependents()
   except Exception as ex:
     rep.coverage["dependents_of_cycles"] = "not measured: %r" % (ex,)
+  # supporting deductive lemmas: depend.Graph against its abstract edge set, with the invariant that
+  # both node indexes are exactly that set (a dependency kept for a cell that no longer reads it keeps a broken cycle alive)
+  from vlib.pysym import runner
+  common.setup_grist_path()
+  runner.run_property(rep, "contracts.C05_graph", bounded=False)
   return rep.finish()
 
 
